@@ -86,8 +86,7 @@ theorem fromSeed_zero_collision {σ : Type} (g : XoGen σ) (sh : C08.Shape σ g)
       SeedInj.isAllZero_replicate] at this
     cases this
 
-/-- corollary: on seeds that are not all zero `from_seed` is injective, and the result is never the
-    generator of the all-zero seed unless the seed is the replacement itself -/
+/-- corollary: on seeds that are not all zero `from_seed` is injective -/
 theorem fromSeed_injective_of_ne_zero {σ : Type} (g : XoGen σ) (sh : C08.Shape σ g)
     (hinj : SeedInj.DecodeInj g) (a b : List U8) (ha : a.length = g.seedLen) (hb : b.length = g.seedLen)
     (hza : a ≠ zeroSeed g.seedLen) (hzb : b ≠ zeroSeed g.seedLen)
